@@ -179,6 +179,15 @@ class PyGen:
             return [T('(', '(', p)] + ts + [T(')', ')', p)]
         return ts
 
+    def opt_paren_tuple(self, ts):
+        """a bare tuple (a comma outside brackets, the one-element `x,` included) may equally be written in parentheses:
+        mark the pair as redundant so that the layout renders it or not"""
+        if self.cs.bool(90):
+            p = self.fresh()
+            self.feat('opt_paren_around_bare_tuple')
+            return [T('(', '(', p)] + ts + [T(')', ')', p)]
+        return ts
+
     # ------------------------------------------------------------ expressions
     def expr(self, level='test', ctx=None):
         """expression at precedence `level` or tighter; returns tokens"""
@@ -526,8 +535,8 @@ class PyGen:
             if sum(1 for it in items if it[0].s == '*') > 1:
                 items = [it for it in items if it[0].s != '*'] or [[self.name()]]
             if len(items) == 1:
-                return items[0] + [tk(',')]
-            return self.join(items)
+                return self.opt_paren_tuple(items[0] + [tk(',')])
+            return self.opt_paren_tuple(self.join(items))
         return self.target(False, 0)
 
     def single_target(self):
@@ -824,12 +833,12 @@ class PyGen:
             items = [it if it[0].s == '*' or it[0].k != 'n' or len(it) < 2 or it[1].s != ':=' else self.test() for it in items]
             if len(items) == 1:
                 if cs.bool():
-                    return items[0] + [tk(',')]
+                    return self.opt_paren_tuple(items[0] + [tk(',')])
                 if items[0][0].s == '*':
-                    return items[0] + [tk(',')]
+                    return self.opt_paren_tuple(items[0] + [tk(',')])
                 return items[0]
             self.feat('bare_tuple')
-            return self.join(items)
+            return self.opt_paren_tuple(self.join(items))
         return self.test()
 
     def assign_rhs(self):
